@@ -13,7 +13,7 @@ import warnings
 import torch
 
 from . import seams
-from .core import (EventLog, HarnessError, SimBudgetExceeded, Violation, derive, fx, tdig,
+from .core import (EventLog, HarnessError, PassThrough, SimBudgetExceeded, Violation, derive, fx, tdig,
                    ulp_next, xf)
 
 LEVY = ("none", "space-time", "davie", "foster")
@@ -157,6 +157,19 @@ def build(cfg, entropy_rng, *, faults=True, entropy_override=None):
     tol = xf(cfg["tol"])
     entropy = cfg["entropy"] if entropy_override is None else entropy_override
     front_kind = cfg["front"]
+    w0 = None
+    try:
+        return _build(cfg, entropy_rng, faults, entropy, t0, t1, size, dtype, tol, front_kind)
+    except (HarnessError, Violation, PassThrough):
+        raise
+    except RecursionError as e:
+        raise Violation(f"exception:RecursionError@{_where(e)}", {"where": "constructor"}, "ctor")
+    except Exception as e:  # noqa
+        raise Violation(f"exception:{type(e).__name__}@{_where(e)}", {"where": "constructor", "msg": str(e)[:200]}, "ctor")
+
+
+def _build(cfg, entropy_rng, faults, entropy, t0, t1, size, dtype, tol, front_kind):
+    import torchsde
     w0 = None
     with seams.entropy_seam(entropy_rng):
         if front_kind in ("interval", "reverse"):
@@ -425,7 +438,7 @@ def _where(exc):
     return fn
 
 
-class CaseTooExpensive(Exception):
+class CaseTooExpensive(PassThrough):
     """The history's running-average query length would make the *designed* size of the dependency tree exceed
     the bound this harness explores (cost proportional to that size is by design, see DESIGN C07). The run is
     truncated at this point; this is a bound on generated histories, never a verdict."""
@@ -479,7 +492,7 @@ class BMExec:
                     out = b.front(ta, tb, return_U=U, return_A=A)
             except SimBudgetExceeded as e:
                 raise Violation("budget", {"ta": fx(ta), "tb": fx(tb), "msg": str(e)}, idx)
-            except (HarnessError, Violation):
+            except (HarnessError, Violation, PassThrough):
                 raise
             except RecursionError as e:
                 raise Violation(f"exception:RecursionError@{_where(e)}", {"ta": fx(ta), "tb": fx(tb)}, idx)
@@ -519,7 +532,7 @@ class BMExec:
         try:
             try:
                 out = b.front(t)
-            except (HarnessError, Violation):
+            except (HarnessError, Violation, PassThrough):
                 raise
             except Exception as e:  # noqa
                 raise Violation(f"exception:{type(e).__name__}@{_where(e)}", {"t": fx(t), "msg": str(e)[:200]}, idx)
